@@ -71,6 +71,7 @@ def cond_text(c, rule_names):
     if k == "Undef": return "uint8(filesize + 7) == 0"
     if k == "Mod": return "tests.constants.one == 1"
     if k == "PeSec": return "pe.number_of_sections == 1"
+    if k == "Ext": return "ext_t == %d" % c["a"]
     raise ValueError(k)
 
 
@@ -160,7 +161,7 @@ def make_file(fid, kind, blocks_spec, u8, nmarkers, pad=b"."):
             data = data[:pos] + b"Q" + data[pos + 1:]
     has_u8 = len(data) >= U8_OFF_FROM_END and data[len(data) - U8_OFF_FROM_END] == 0x51
     pesec = bool(blocks_spec) and blocks_spec[0].get("exe") == "pe"
-    f = {"id": fid, "size": len(data), "u8": bool(has_u8), "pesec": pesec, "blocks": blocks}
+    f = {"id": fid, "size": len(data), "u8": bool(has_u8), "pesec": pesec, "ext": 0, "blocks": blocks}
     return f, data, sizes
 
 
